@@ -21,9 +21,9 @@ REQUIRED_THEOREMS = ['this_in_iso_week', 'next_is_following_week', 'last_is_prec
                      'this_week_is_monday_to_monday', 'week_timex_matches_isocalendar', 'year_period',
                      'month_period_fixed', 'month_period_prefix_partial', 'next_month_prefix_regression', 'now_is_reference',
                      'hms_ago_later', 'hms_units', 'week_prefix_period', 'weekend_is_saturday_to_monday',
-                     'weekend_timex_partial', 'weekend_timex_fails_at_year_boundary', 'weekend_timex_fixed',
+                     'weekend_timex_fixed', 'weekend_timex_prefix_partial', 'weekend_timex_prefix_regression',
                      'month_prefix_period', 'year_prefix_period', 'year_to_date', 'month_to_date',
-                     'month_to_date_past_start_fails', 'rest_of_week', 'rest_of_month', 'rest_of_year', 'rest_of_witnesses']
+                     'month_to_date_prefix', 'month_to_date_prefix_regression', 'rest_of_week', 'rest_of_month', 'rest_of_year', 'rest_of_witnesses']
 RULE = ('unit: every ordinal of 1950..2090 + stride 97 over 0001..9999 (thorough: every ordinal) for ord2ymd/weekday/'
         'isocalendar; datedelta shim x 22 deltas on boundary days + all days of 2019-2021; this/next/last on every day of '
         '1950..2090 x dow 0..7; get_date_result D/W/MON/Y x N x both directions; parse_implicit_date and '
@@ -53,7 +53,7 @@ FINGERPRINTS = {'DateUtils.this': '6ae1c138c40e9f11', 'DateUtils.next': 'cf69080
 EXPLANATION = ('Lean theorems about the model of the date arithmetic (every reference, every N, no bound) + correspondence '
                'of that model with the working tree (CPython calendar, datedelta shim, DateUtils, AgoLaterUtil, the two '
                'parser functions; unit + pipeline) + the property computed independently on recognize_datetime output. '
-               'A tree that follows the repaired month variant (shift the first of the month) is accepted silently.')
+               'The model mirrors the code after the five recorded fixes; the pre-fix variants stay modelled so that a revert is named.')
 WEEKDAYS = ['monday', 'tuesday', 'wednesday', 'thursday', 'friday', 'saturday', 'sunday']
 SPECIAL = [('today', 0), ('tomorrow', 1), ('yesterday', -1)]
 SWIFTS = [('this', 0), ('next', 1), ('last', -1)]
@@ -61,8 +61,8 @@ NS = [1, 2, 7, 30, 365, 5000]
 
 # the negative witnesses proved in RTV/Props/C08.lean (replayed on the implementation every run)
 WITNESS_NEXT_MONTH = dt.datetime(2020, 1, 31, 0, 0, 0)          # next_month_prefix_regression
-WITNESS_WEEKEND = [dt.datetime(2020, 12, 31, 0, 0, 0), dt.datetime(2021, 1, 3, 0, 0, 0)]   # weekend_timex_fails_at_year_boundary
-WITNESS_MTD = dt.datetime(2020, 5, 20, 14, 30, 0)               # month_to_date_past_start_fails
+WITNESS_WEEKEND = [dt.datetime(2020, 12, 31, 0, 0, 0), dt.datetime(2021, 1, 3, 0, 0, 0)]   # weekend_timex_prefix_regression
+WITNESS_MTD = dt.datetime(2020, 5, 20, 14, 30, 0)               # month_to_date_prefix_regression
 PREFIXES = [('early', (1, 0, 0)), ('mid', (0, 1, 0)), ('late', (0, 0, 1))]
 
 
@@ -229,7 +229,8 @@ def unit_parsers(ctx, days):
     dow_map = dict(dp.config.day_of_week)
     names = sorted(dow_map)
     lines, impl, meta = [], [], []
-    days = [WITNESS_NEXT_MONTH.date()] + list(days)          # the regression witness of d8aa8bf73 comes first
+    # the regression witnesses of the recorded fixes come first, so that a revert is reported with them
+    days = [WITNESS_NEXT_MONTH] + WITNESS_WEEKEND + [WITNESS_MTD] + list(days)
 
     def res2(r):
         return '%s\t%s' % (r.timex, fmt_dt(r.future_value)) if r.success and r.future_value == r.past_value else 'no:%r' % r.success
@@ -239,7 +240,7 @@ def unit_parsers(ctx, days):
             return 'no'
         return '%s\t%s\t%s' % (r.timex, fmt_dt(r.future_value[0]), fmt_dt(r.future_value[1]))
     for i, d in enumerate(days):
-        R = at(d, calcorr.TIMES[i % 3])
+        R = d if isinstance(d, dt.datetime) else at(d, calcorr.TIMES[i % 3])
         rf = ref_fields(R)
         for expr, sw in SPECIAL + [('the day after tomorrow', 2), ('the day before yesterday', -2)]:
             lines.append('du.special\t%s\t%d' % (rf, sw))
@@ -255,7 +256,7 @@ def unit_parsers(ctx, days):
                 lines.append('du.%s\t%s\t%d' % (unit, rf, sw))
                 impl.append(guarded(lambda: res3(pp._parse_one_word_period(pre + ' ' + unit, R))))
                 meta.append(pre + ' ' + unit)
-        if i % 3 == 0:
+        if i % 3 == 0 or i < 4:
             for pw, fl in PREFIXES:
                 for pre, sw in SWIFTS:
                     lines.append('du.weekp\t%s\t%d\t%d\t%d\t%d' % (rf, sw, fl[0], fl[1], fl[2]))
@@ -316,19 +317,24 @@ def unit_parsers(ctx, days):
                            property_fails=True)
                 diff.remove(i)
                 break
-    # repaired variants of the recorded round-2 findings are accepted silently (DESIGN 2.5)
-    wdiff = [i for i in diff if lines[i].startswith('du.weekend\t')]
-    if wdiff:
-        fixed = common.driver([lines[i].replace('du.weekend\t', 'du.weekendfixed\t', 1) for i in wdiff])
-        ok = {i for i, f in zip(wdiff, fixed) if impl[i] == f}
-        diff = [i for i in diff if i not in ok]
-        if ok:
-            ctx.extra['weekend_timex_variant'] = 'repaired (ISO year of the Saturday)'
-    for i in [i for i in diff if lines[i].startswith('du.mtd\t')]:
-        f = model[i].split('\t')
-        if len(f) == 4 and impl[i] == '\t'.join([f[0], f[1], f[1], f[3]]):
-            diff.remove(i)
-            ctx.extra['month_to_date_variant'] = 'repaired (past value starts on the 1st)'
+    # a revert of a recorded round-2 fix?  the pre-fix variants are still modelled (du.weekendprefix, du.mtdprefix)
+    for op, pre_op, sig in (('du.weekend\t', 'du.weekendprefix\t', 'weekend-timex-reference-year'),
+                            ('du.mtd\t', 'du.mtdprefix\t', 'month-to-date-past-start')):
+        sub = [i for i in diff if lines[i].startswith(op)]
+        if not sub:
+            continue
+        pre = common.driver([lines[i].replace(op, pre_op, 1) for i in sub])
+        for i, pf in zip(sub, pre):
+            if impl[i] == pf:
+                f = lines[i].split('\t')
+                R = dt.datetime(int(f[1]), int(f[2]), int(f[3])) + dt.timedelta(seconds=int(f[4]))
+                want = oracle('weekend', int(f[5]), R) if op == 'du.weekend\t' else oracle('mtd', None, R)
+                ctx.report('property', sig, '_parse_one_word_period(%r, %s) -> %s; the property states %r (pre-fix behaviour)' % (
+                    meta[i], R, impl[i], want),
+                    failing_input={'op': '_parse_one_word_period', 'expression': meta[i], 'reference': str(R),
+                                   'implementation': impl[i], 'model': model[i], 'property_expects': want},
+                    property_fails=True)
+                diff.remove(i)
     for i in diff[:3]:
         ctx.report('correspondence', 'parser-' + lines[i].split('\t')[0][3:], '%s (%r): implementation %s, model %s' % (
             lines[i], meta[i], impl[i], model[i]),
@@ -440,8 +446,11 @@ def pipeline(ctx):
         if l:
             mlines.append(l)
             midx.append(i)
-        if fam == 'month':
-            mlines.append('du.monthprefix\t%s\t%d' % (ref_fields(R), par))
+        if fam in ('month', 'weekend'):
+            mlines.append('du.%sprefix\t%s\t%d' % (fam, ref_fields(R), par))
+            midx.append(-i - 1)
+        elif fam == 'mtd':
+            mlines.append('du.mtdprefix\t%s' % ref_fields(R))
             midx.append(-i - 1)
     answers = common.driver(mlines)
     model, prefix = {}, {}
@@ -471,8 +480,6 @@ def pipeline(ctx):
                     expr, fi['reference'], got, mv), failing_input=fi)
             continue
         if got == want:
-            if fam in ('weekend', 'mtd'):
-                continue            # the independent oracle holds: the tree follows the repaired variant of a recorded finding
             if mv != got and isinstance(mv, list):
                 ctx.report('correspondence', 'pipeline-' + fam, '%r (%s) at %s: implementation %r, model %r' % (
                     expr, cul, fi['reference'], got, mv), failing_input=fi)
@@ -480,9 +487,9 @@ def pipeline(ctx):
         # the property fails on this input: classify
         if month_overflow(fam, par, R) and i in prefix and got == model_values(fam, prefix[i]):
             sig = 'next-month-day-overflow'
-        elif fam == 'weekend' and got == mv:
+        elif fam == 'weekend' and i in prefix and got == model_values(fam, prefix[i]):
             sig = 'weekend-timex-reference-year'
-        elif fam == 'mtd' and got == mv:
+        elif fam == 'mtd' and i in prefix and got == model_values(fam, prefix[i]):
             sig = 'month-to-date-past-start'
         elif cul == 'zh-cn' and fam == 'ago' and par[1] >= 100 and got == calcorr.c08_oracle(
                 fam, (par[0], int(str(par[1])[:2]), par[2]), R):
